@@ -491,6 +491,51 @@ func endToEndReal(w *gen.Writer, r *gen.Rand, f gen.Flags) {
 			w.Emit(c)
 		}
 	}
+	// arbitrary well-formed wire messages (the generator of the converter cases: holes, bad regexps, garbage bitmaps,
+	// every arm) against the real server with the real searcher behind it: a response or a status, and a live server
+	for i, n := 0, f.N(150, 3000); i < n; i++ {
+		p := genPQ(r, 3)
+		if r.Chance(1, 20) {
+			p = nil
+		}
+		if p != nil {
+			if _, err := proto.Marshal(p); err != nil {
+				continue
+			}
+		}
+		desc := "random request " + showPQ(p)
+		var gerr error
+		which := []string{"search", "list", "stream"}[i%3]
+		switch which {
+		case "search":
+			var po *webserverv1.SearchOptions
+			if r.Bool() {
+				po = &webserverv1.SearchOptions{ChunkMatches: r.Bool(), Whole: r.Chance(1, 4), NumContextLines: int64(r.Intn(3))}
+			}
+			_, gerr = ch.client.Search(ctx, &webserverv1.SearchRequest{Query: p, Opts: po})
+		case "list":
+			_, gerr = ch.client.List(ctx, &webserverv1.ListRequest{Query: p})
+		case "stream":
+			var st webserverv1.WebserverService_StreamSearchClient
+			st, gerr = ch.client.StreamSearch(ctx, &webserverv1.StreamSearchRequest{Request: &webserverv1.SearchRequest{Query: p}})
+			if gerr == nil {
+				for {
+					if _, err := st.Recv(); err != nil {
+						if err != io.EOF {
+							gerr = err
+						}
+						break
+					}
+				}
+			}
+		}
+		if crashed("random-request:"+which, desc, gerr) {
+			continue
+		}
+		w.Emit(gen.Case{Class: "e2e:random-request:" + which + ":" + status.Code(gerr).String(), Nontrivial: true,
+			Detail: gen.Detail(map[string]any{"kind": "e2e", "what": desc})})
+	}
+
 	if which := "stream"; true { // an entirely empty StreamSearchRequest
 		st, gerr := ch.client.StreamSearch(ctx, &webserverv1.StreamSearchRequest{})
 		if gerr == nil {
